@@ -150,7 +150,6 @@ func genC05(seed uint64, tier string) *c05Scenario {
 	if tier == "thorough" {
 		big = r.Chance(1, 2)
 	}
-	horizon := int64(20) * scale
 	if big {
 		if r.Chance(1, 3) {
 			s.Producer = append(s.Producer, burst(r.Range(1, 40), 1, core.Pick(r, 8, 300, 5000), 0))
@@ -234,17 +233,20 @@ func genC05(seed uint64, tier string) *c05Scenario {
 	if need := total / 1500; sum < need*cnt {
 		s.Reader = append(s.Reader, c05ROp{Kind: "read", N: need * (cnt + 1)})
 	}
+	// mostly early, while the producer is still at work
 	if r.Chance(1, 5) {
-		s.CloserAtNs = int64(r.Intn(int(horizon)))
+		s.CloserAtNs = int64(core.Pick(r, 0, r.Intn(3), r.Intn(8), r.Intn(20))) * scale
 	}
-	if r.Chance(1, 5) {
-		s.CancelAtNs = int64(r.Intn(int(horizon)))
+	if r.Chance(1, 4) {
+		s.CancelAtNs = int64(core.Pick(r, 0, r.Intn(3), r.Intn(8), r.Intn(20))) * scale
 	}
 	s.AfterReads = r.Range(0, 3)
 	s.Hold = core.Pick(r, 0, 0, 1, 3, 8)
-	// The transports put an error into a server stream's buffer at most once
-	// (END_STREAM) and gate client-side error puts with the stream state, so
-	// only one run in eight (server flavour, multi_err) puts several raw errors.
+	// The transports normally put an error into a server stream's buffer once
+	// (END_STREAM; a peer repeating END_STREAM after the handler returned makes
+	// it twice) and gate client-side error puts with the stream state: one run
+	// in eight (server flavour, multi_err) puts several raw errors, the other
+	// server-flavour runs exactly one.
 	if !s.Client {
 		s.MultiErr = r.Chance(1, 4)
 		if !s.MultiErr {
@@ -396,6 +398,12 @@ func (w *c05World) putErr(who string, err error) {
 			e.Probe("close_stream_gate_lost")
 		}
 	} else {
+		for _, ep := range w.errs[:i] {
+			if ep.end != 0 && !ep.void {
+				e.Probe("error_put_after_error")
+				break
+			}
+		}
 		func() {
 			defer func() {
 				r := recover()
@@ -403,13 +411,7 @@ func (w *c05World) putErr(who string, err error) {
 					return
 				}
 				w.errs[i].void = true
-				for j, ep := range w.errs {
-					if j != i && !ep.void {
-						e.Violate("second_error_put_panics", "recvBuffer.put(recvMsg{err: ...}) panicked because an error had been put before: %v", r)
-						return
-					}
-				}
-				e.Violate("panic", "recvBuffer.put(recvMsg{err}) panicked: %v", r)
+				e.Violate("error_put_panics", "recvBuffer.put(recvMsg{err: %v}) panicked (%d error puts before it): %v", err, i, r)
 			}()
 			w.rb.put(recvMsg{err: err})
 		}()
@@ -709,6 +711,14 @@ func runC05(e *core.Env, s *c05Scenario) {
 				w.inRead = false
 				callEnd := w.now()
 				w.progress++
+				if w.stop {
+					// the run is being torn down (after a violation): what this
+					// call returned is no longer judged
+					if buf != nil {
+						buf.Free()
+					}
+					return
+				}
 				if w.cs != nil && !w.rdClose && w.cs.state == streamDone && !w.mySt[w.cs.status] {
 					// closeStream sets state and status in one atomic step, and
 					// none of the harness' closeStream calls owns this status:
@@ -748,6 +758,10 @@ func runC05(e *core.Env, s *c05Scenario) {
 				fi, fo := w.fi, w.fo
 				if !w.verify(got, op.Kind) {
 					w.stop = true
+					if buf != nil {
+						buf.Free()
+					}
+					return
 				}
 				if rd.last != nil {
 					e.Probe("split_last_buffer")
@@ -801,6 +815,7 @@ func runC05(e *core.Env, s *c05Scenario) {
 	stopped := w.stop
 	w.stop = true
 	close(quit)
+	w.cancelled = true
 	cancel()
 	if stopped && w.rb.err == nil {
 		// unblock a reader that is stuck for a reason already reported
